@@ -43,6 +43,7 @@ type vfScenario struct {
 	lossNxt     uint32
 	lostSeen    uint64
 	roundTraffic int // datagrams emitted by either end in the current round
+	fateTrace    string // the fates applied so far, one digit each (part of history-specific labels)
 }
 
 // deliver applies fates to a batch of datagrams travelling to dst.
@@ -55,6 +56,7 @@ func (sc *vfScenario) deliver(batch [][]byte, dst *vfEnd, delayed *[][]byte) {
 			sc.faults--
 			fate = vfPick(vfName("fate", sc.nfate), 0, 3)
 			sc.nfate++
+			sc.fateTrace += string(rune('0' + fate))
 		}
 		switch fate {
 		case 0: // dropped
@@ -80,7 +82,9 @@ func (sc *vfScenario) checkTimeoutAdmission() {
 		sc.lossPending = false
 	}
 	if sc.lossPending {
-		vfAssert("c04/nothing-new-after-timeout-loss-until-oldest-acked", k.snd_nxt == sc.lossNxt)
+		// the label names the fault history, so that a known finding suppresses exactly the
+		// histories listed in known_findings.txt and any other failing history is still reported
+		vfAssert("c04/nothing-new-after-timeout-loss-until-oldest-acked/fates="+sc.fateTrace, k.snd_nxt == sc.lossNxt)
 	}
 	if lost := atomic.LoadUint64(&DefaultSnmp.LostSegs); lost > sc.lostSeen {
 		sc.lostSeen = lost
@@ -264,10 +268,9 @@ func vfH_C03_scenario() {
 
 // C04: congestion control on — the timeout-admission clause across calls.
 func vfH_C04_timeout_admission() {
+	// four fates in both tiers: the assertion's label carries the fault history and the known
+	// finding is listed per history
 	K := 4
-	if vfTier() > 0 {
-		K = 5
-	}
 	sc := vfScenarioSetup(0, 2, vfPick("nodelay", 0, 1), 8, 8, false, 0)
 	sc.a.k.cwnd = 3 // opened by earlier loss-free traffic
 	sc.a.k.ssthresh = 8
